@@ -7,7 +7,8 @@ _cache = {}
 
 
 def unroll_for(ctx):
-    return 2
+    """quick: every loop 0..2 iterations; thorough: 0..3"""
+    return 3 if ctx.tier == "thorough" else 2
 
 
 def analyses(ctx):
